@@ -2,11 +2,13 @@
 # selftest/eval_seed.sh <dir with patchK.diff demoK.py> <K> <tier> <ID> [<ID>...]
 # Confirms a seeded change independently (applies, suite passes, demo fails with / passes without) and runs our checks on it.
 D="$(realpath "$1")"; K="$2"; TIER="$3"; shift 3
+# layouts: <dir>/patch<K>.diff + demo<K>.py (as delivered) or seeded/<id>-<k>/patch.diff + demo.py (as kept; pass K=-)
+if [ -f "$D/patch.diff" ]; then P="$D/patch.diff"; DEMO="$D/demo.py"; else P="$P"; DEMO="$DEMO"; fi
 S="$(mktemp -d /tmp/vfseed_XXXXXX)"; rmdir "$S"
 git -C /repo worktree add -q --detach "$S" HEAD || exit 3
 trap 'git -C /repo worktree remove --force "$S" >/dev/null 2>&1; rm -rf "$S"' EXIT
-( cd "$S" && PYTHONPATH="$S/src" timeout 600 /venv/bin/python "$D/demo$K.py" >/dev/null 2>&1 ); echo "demo-without-patch rc=$?"
-git -C "$S" apply "$D/patch$K.diff" || { echo PATCH-DOES-NOT-APPLY; exit 3; }
-( cd "$S" && PYTHONPATH="$S/src" timeout 600 /venv/bin/python "$D/demo$K.py" >/dev/null 2>&1 ); echo "demo-with-patch rc=$?"
+( cd "$S" && PYTHONPATH="$S/src" timeout 600 /venv/bin/python "$DEMO" >/dev/null 2>&1 ); echo "demo-without-patch rc=$?"
+git -C "$S" apply "$P" || { echo PATCH-DOES-NOT-APPLY; exit 3; }
+( cd "$S" && PYTHONPATH="$S/src" timeout 600 /venv/bin/python "$DEMO" >/dev/null 2>&1 ); echo "demo-with-patch rc=$?"
 git -C "$S" checkout -q -- . 
-"$(dirname "$0")/try_patch.sh" "$D/patch$K.diff" "$TIER" "$@"
+"$(dirname "$0")/try_patch.sh" "$P" "$TIER" "$@"
